@@ -28,9 +28,12 @@ def main():
         for u in m.get("units", []): cmd += ["--unit", u]
         r = subprocess.run(cmd, capture_output=True, text=True)
         hit = [l for l in r.stdout.split("\n") if l.startswith("VIOLATION")]
-        ok = r.returncode == 1 and any(m["expect"] in l for l in hit)
+        if m["expect"] == "HARMLESS":   # an equivalent change: the check must stay quiet
+            ok = r.returncode == 0 and not hit
+        else:
+            ok = r.returncode == 1 and any(m["expect"] in l for l in hit)
         results.append({"id": m["id"], "killed": ok, "rc": r.returncode})
-        print(f"MUTANT {m['id']}: {'killed' if ok else 'SURVIVED'} rc={r.returncode} {time.time()-t0:.1f}s {' | '.join(hit)[:200]}")
+        print(f"MUTANT {m['id']}: {('quiet' if m['expect']=='HARMLESS' else 'killed') if ok else ('FALSE-ALARM' if m['expect']=='HARMLESS' else 'SURVIVED')} rc={r.returncode} {time.time()-t0:.1f}s {' | '.join(hit)[:200]}")
         if not ok:
             bad += 1
             print(r.stdout[-800:], r.stderr[-800:])
